@@ -3,6 +3,7 @@
 Reference-model monitor: date literals are generated from a chosen instant by the monitor's own
 rendering of each documented pattern; instants are recovered from replies and compared using an
 independent proleptic-Gregorian day-number calendar with integer nanoseconds."""
+import json
 import random
 import re
 import sys
@@ -430,6 +431,142 @@ def work(idx, _chunk, seed, n):
     return part.export()
 
 
+def days_in_month(y, m):
+    return [31, 29 if (y % 4 == 0 and (y % 100 != 0 or y % 400 == 0)) else 28, 31, 30, 31, 30, 31, 31, 30, 31, 30, 31][m - 1]
+
+
+MONTHS = ["jan", "feb", "mar", "apr", "may", "jun", "jul", "aug", "sep", "oct", "nov", "dec"]
+
+
+def work_invalid(idx, _chunk, seed, n):
+    """literals that match a documented pattern but describe no instant (a day the month does not have, minute 60,
+    an offset of 24 h or more), second 60, time-only literals in named zones on daylight-saving days, a duration
+    minus a date, and the rfc3339 field for zones whose offset has seconds: each must be refused, or be consistent"""
+    probe = worker_probe()
+    part = Part()
+    rng = random.Random((seed << 7) ^ (idx * 6151 + 3))
+    cid = probe.ctx("bundled")
+
+    def must_refuse(q, what, sig):
+        r = ask(part, probe, q, cid)
+        if r is None:
+            return
+        rep = r.get("r") or {}
+        if not (rep.get("kind") or "").startswith("err"):
+            part.violation(dict({"kind": what}, **sig), {"query": q, "reply": (r.get("text") or "")[:200]},
+                           "a literal that describes no instant was given one")
+        else:
+            part.count(what.replace("accepted", "refused"))
+            part.seen(what + "|" + json.dumps(sig, sort_keys=True))
+
+    for _ in range(n):
+        y = rng.choice([1900, 2000, 2019, 2020, 2021, 2100, rng.randrange(1, 9999)])
+        r0 = rng.random()
+        hh, mi, ss = rng.randrange(24), rng.randrange(60), rng.randrange(60)
+        if r0 < 0.2:
+            # a day the month (or the year) does not have, with a valid time of day
+            m = rng.randrange(1, 13)
+            d = days_in_month(y, m) + rng.choice([1, 1, 2]) if rng.random() < 0.8 else 0
+            if d > 31 or d == 0:
+                d = 31 if days_in_month(y, m) < 31 else 32
+            form = rng.choice(["iso", "isoT", "ordinal", "monthname", "ymonthname"])
+            if d > 31:
+                form = "ordinal"
+            if form == "iso":
+                q = "#%04d-%02d-%02d %02d:%02d#" % (y, m, d, hh, mi)
+            elif form == "isoT":
+                q = "#%04d-%02d-%02dT%02d:%02d:%02d#" % (y, m, d, hh, mi, ss)
+            elif form == "ordinal":
+                leap = days_in_month(y, 2) == 29
+                q = "#%04d-%03d %02d:%02d#" % (y, 367 if leap or rng.random() < 0.3 else 366, hh, mi)
+            elif form == "monthname":
+                q = "#%s %d, %d %02d:%02d#" % (MONTHS[m - 1], d, y, hh, mi)
+            else:
+                q = "#%d %s %d %02d:%02d#" % (y, MONTHS[m - 1], d, hh, mi)
+            must_refuse(q, "impossible_date_accepted", {"form": form})
+        elif r0 < 0.35:
+            m = rng.randrange(1, 13)
+            d = rng.randrange(1, days_in_month(y, m) + 1)
+            bad = rng.choice(["min60", "sec61frac", "min99", "hour24", "sec75"])
+            t = {"min60": "%02d:60" % hh, "sec61frac": "%02d:%02d:61.5" % (hh, mi), "min99": "%02d:99" % hh,
+                 "hour24": "24:%02d" % mi, "sec75": "%02d:%02d:75" % (hh, mi)}[bad]
+            must_refuse("#%04d-%02d-%02d %s#" % (y, m, d, t), "impossible_time_accepted", {"which": bad})
+        elif r0 < 0.5:
+            m = rng.randrange(1, 13)
+            d = rng.randrange(1, days_in_month(y, m) + 1)
+            bad = rng.choice(["+24:00", "-24:00", "+2400", "-9999", "+99:59", "+0099", "-0060", "+25:30", "+4800"])
+            must_refuse("#%04d-%02d-%02d %02d:%02d:%02d %s#" % (y, m, d, hh, mi, ss, bad), "literal_offset_out_of_range_accepted",
+                        {"offset": bad})
+        elif r0 < 0.65:
+            # second 60: refused, or arithmetic on it is exact
+            m = rng.randrange(1, 13)
+            d = rng.randrange(1, days_in_month(y, m) + 1)
+            frac = rng.choice(["", "", ".5", ".000000001"])
+            lit_ = "#%04d-%02d-%02d %02d:%02d:60%s#" % (y, m, d, hh, mi, frac)
+            t, tn = rng.choice([("1 day", 86400), ("1 s", 1), ("1 hour", 3600), ("90 s", 90)])
+            q = "(%s + %s) - %s" % (lit_, t, lit_)
+            r = ask(part, probe, q, cid)
+            if r is not None:
+                rep = r.get("r") or {}
+                if (rep.get("kind") or "").startswith("err"):
+                    part.count("second_60_refused")
+                    part.seen("sec60|refused|" + frac)
+                else:
+                    v = value_of(rep)
+                    if v is None or v == "float" or v[0] != tn:
+                        part.violation({"kind": "add_then_subtract_differs", "instant": "second 60"},
+                                       {"query": q, "reply": (r.get("text") or "")[:200], "want_s": tn}, "(d + t) - d != t")
+                    else:
+                        part.count("second_60_consistent")
+        elif r0 < 0.8:
+            # time-only literal in a named zone while `now` is a daylight-saving transition day in that zone
+            zone, clock, times = rng.choice([
+                ("US/Pacific", 1615752000, ["02:30", "02:00", "02:59:59", "03:00", "01:59"]),      # 2021-03-14 20:00Z (gap)
+                ("US/Pacific", 1636315200, ["01:30", "01:00", "01:59:59", "02:00", "00:59"]),      # 2021-11-07 20:00Z (fold)
+                ("Europe/London", 1616932800, ["01:30", "01:00", "02:00"]),                        # 2021-03-28 12:00Z
+                ("Europe/London", 1635681600, ["01:30", "01:00", "02:00"]),                        # 2021-10-31 12:00Z
+                ("Australia/Sydney", 1633190400, ["02:30", "02:00", "03:00"]),                     # 2021-10-02 16:00Z -> Oct 3 local
+                ("America/New_York", 1615708800, ["02:30", "03:30"])])
+            q = "#%s %s#" % (rng.choice(times), zone)
+            part.evaluations += 1
+            r = probe.request({"op": "eval", "ctx": cid, "q": q, "time": clock, "spans": False, "json": False}, timeout=30)
+            if "timeout" in r or "died" in r:
+                part.inconclusive_event("no reply", {"query": q})
+            elif r.get("panics"):
+                pz = r["panics"][0]
+                part.violation(panic_sig(pz), {"query": q, "clock": clock, "panic": pz},
+                               "panic on a time-only literal on a daylight-saving day")
+            else:
+                part.count("dst_day_literal_answered:" + str((r.get("r") or {}).get("kind")))
+                part.seen("dst|%s|%s" % (zone, q))
+        elif r0 < 0.9:
+            m = rng.randrange(1, 13)
+            d = rng.randrange(1, days_in_month(y, m) + 1)
+            q = "%s - #%04d-%02d-%02d %02d:%02d#" % (rng.choice(["5 s", "1 day", "3 hours", "0 s", "-2 s"]), y, m, d, hh, mi)
+            must_refuse(q, "duration_minus_date_accepted", {})
+        else:
+            # zones whose historical offset has seconds: the rfc3339 field still names the instant
+            zone, yy = rng.choice([("Europe/Amsterdam", 1930), ("US/Pacific", 1800), ("Europe/Paris", 1890), ("Asia/Kolkata", 1900),
+                                   ("America/New_York", 1850), ("Europe/Dublin", 1900)])
+            m = rng.randrange(1, 13)
+            d = rng.randrange(1, 28)
+            want = instant_of(yy, m, d, hh, mi, ss, 0, 0)
+            q = '#%04d-%02d-%02d %02d:%02d:%02d +00:00# -> "%s"' % (yy, m, d, hh, mi, ss, zone)
+            r = ask(part, probe, q, cid)
+            if r is not None:
+                g = date_instant(r.get("r") or {})
+                if g is None:
+                    part.count("historic_zone_conversion_no_instant")
+                elif g[0] != want:
+                    part.violation({"kind": "zone_conversion_changes_instant", "field": "rfc3339", "era": "offset with seconds"},
+                                   {"query": q, "rfc3339": (r.get("r") or {}).get("rfc3339"), "diff_ns": g[0] - want},
+                                   "the rfc3339 field of the converted date names another instant")
+                else:
+                    part.count("historic_zone_conversion_ok")
+                    part.seen("historic|" + zone)
+    return part.export()
+
+
 def _norm(m):
     m = re.sub(r"`[^`]*`", "`..`", m or "")
     return re.sub(r"\d+", "N", m)[:80]
@@ -441,7 +578,9 @@ def run(tier, seed):
                 "documented literal form (ISO with T/space, ordinal, month-name 12h/24h, ctime, astronomical, time-of-day; "
                 "optional seconds, 1-9 fractional digits, fixed offsets) x durations of 1 ns..9500 years in 16 time units, "
                 "both signs; literal instant, (d+t)-d, (d-t)+t, d1-d2, fixed-offset and named-zone conversions, refusal of "
-                "offsets >= 24h; non-trivial = distinct (literal form, duration unit, sub-ms/sub-s/whole, sign) classes")
+                "offsets >= 24h; literals that describe no instant (impossible day, minute 60, offset >= 24 h) must be refused, "
+                "second 60 refused or consistent, time-only literals in named zones on daylight-saving days, duration - date, "
+                "rfc3339 for zones with second offsets; non-trivial = distinct (literal form, duration unit, sub-ms/sub-s/whole, sign) classes")
     run.assumptions = ["clock pinned at 2020-09-13T12:26:40Z; the sandbox's local zone is UTC",
                        "named-zone conversions are judged on instants from 1972 on (earlier local-mean-time offsets "
                        "are not representable in rfc3339); named zones inside literals, ISO-week and year-less patterns "
@@ -450,6 +589,8 @@ def run(tier, seed):
     n = 12000 if tier == "quick" else 400000
     per = nproc()
     for res in shard_map(work, [None] * per, (seed, n // per + 1)):
+        run.merge(res)
+    for res in shard_map(work_invalid, [None] * per, (seed, (n // 6) // per + 1)):
         run.merge(res)
     return run.finish()
 
